@@ -50,12 +50,15 @@
       the collected fields; since round 4 exactly the invariant [validate_establishes_invariant] with
       its two missing lemmas, spelled out below; root type, argument coercion and acyclicity are proved) is the explicit
       premise of [C03_validate_establishes_doc_ok_partial] / [C03_pipeline_response_partial]: with
-      it, every request with evaluable conditions gets a response.
-    - [doc_ok] contains C01's hypothesis that every @skip/@include condition has a boolean value.
+      it, every request gets a response.
+    - C01's [doc_ok] contains the hypothesis that every @skip/@include condition has a boolean value.
       A validated request can violate it (a nullable Boolean variable with a default, given null:
-      the directive's argument cannot be coerced, the selection is left out with an error).  Such
-      requests get [PUnevaluable r]: the executor model's answer, compared by the check, with no
-      theorem about it ([request_evaluable] is the hypothesis of [C03_pipeline_total]).
+      the directive's argument cannot be coerced, the selection is left out with an error).  Since
+      round 5 the composed model checks C01's [doc_ok_nodirs] ([doc_ok] without that conjunct) and
+      C01's dirs-free theorems (C01_exec_total_nodirs, C01_exec_data_finite_nodirs,
+      C01_doc_ok_nodirs_acyclic) cover such requests: there is no [PUnevaluable] outcome and no
+      [request_evaluable] hypothesis any more.  Only [C03_async_resolvers_same_data] keeps
+      [dirs_evaluable] as a hypothesis (C02's bridge theorem is stated under the full [doc_ok]).
     - Outside the composition: the serialiser itself (encoding/json; [json_finite] is the condition under
       which it accepts a number), stack depth of the Go runtime.  For these the glue theorems of
       round 1 (…_partial below) and the hostile stream remain the evidence. *)
@@ -95,27 +98,23 @@ Theorem C03_pipeline_never_panics : forall pi, Vld.ProofsCommon.order_ok pi -> f
   match pipeline_order pi VS F ES bs opname raw W with PPanic _ | POutOfFuel _ => False | _ => True end.
 Proof. exact pipeline_never_panics_cases. Qed.
 
-(** ... and when every @skip/@include condition has a boolean value the outcome is a response
-    (syntax errors / validation errors / data and execution errors / the variable-coercion error),
-    or the report that a stage contract does not hold *)
+(** ... and the outcome is a response (syntax errors / validation errors / data and execution
+    errors / the variable-coercion error), or the report that a stage contract does not hold —
+    whatever the variables: a @skip/@include condition without a boolean value is covered
+    (C01_exec_total_nodirs) *)
 Theorem C03_pipeline_total : forall pi, Vld.ProofsCommon.order_ok pi -> forall VS F ES bs opname raw W,
-  schema_accepted ES = true -> request_evaluable pi VS F ES bs opname raw ->
+  schema_accepted ES = true ->
   is_response (pipeline_order pi VS F ES bs opname raw W) = true \/
   contract_broken (pipeline_order pi VS F ES bs opname raw W) = true.
 Proof. exact pipeline_total. Qed.
 
-(** the complete classification: a response with data or errors and serialisable data; a broken
-    contract; or conditions without boolean value *)
+(** the complete classification: a response with data or errors and serialisable data, or a broken
+    contract *)
 Theorem C03_pipeline_cases : forall pi, Vld.ProofsCommon.order_ok pi -> forall VS F ES bs opname raw W,
   schema_accepted ES = true ->
   let r := pipeline_order pi VS F ES bs opname raw W in
   (is_response r = true /\ data_or_errors_p r = true /\ serialisable_p r = true) \/
-  contract_broken r = true \/
-  (unevaluable r = true /\
-   exists d o vv, parse_and_validate_order pi VS F bs = FAccepted d /\
-                  ExeA.ArgModel.get_operation (exe_of_syn d) opname = ExeA.ArgModel.GOp o /\
-                  ExeA.ArgModel.coerce_request_vars ES o raw = Val.Values.Ok vv /\
-                  ExeA.ArgHyps.dirs_evaluable (ExeA.ArgData.doc_of (exe_of_syn d) o vv) (ExeA.ArgArgs.env_of_vars vv) = false).
+  contract_broken r = true.
 Proof. exact pipeline_cases. Qed.
 
 (** every response's data has a JSON form: no NaN, no infinity anywhere in it (C01_exec_data_finite
@@ -157,16 +156,24 @@ Proof. exact pipeline_order_independent. Qed.
 
 (** ** the open obligation [validate accepted => doc_ok], half of it proved.
 
-    [doc_ok ES D E fuel n] = [conds_ok ES D E] && [doc_typed ES D E]:
-    - [conds_ok]: every @skip/@include condition has a boolean value and every type condition (of a
-      fragment definition or an inline fragment, at any depth) names a composite type — so that
-      doesFragmentTypeApply never reaches panic("unexpected fragment type");
+    [doc_ok_nodirs ES D E fuel n] = [conds_gen ES D E false] && [doc_typed ES D E]:
+    - [conds_gen _ _ _ false]: every type condition (of a fragment definition or an inline fragment,
+      at any depth) names a composite type — so that doesFragmentTypeApply never reaches
+      panic("unexpected fragment type"); ([conds_ok] = [conds_gen _ _ _ true] adds: every
+      @skip/@include condition has a boolean value);
     - [doc_typed]: whatever object type is reached, every collected field is defined on it and has
       an output type (so that completeValue never reaches panic("unexpected field type")).
-    PROVED: a text accepted by the composed front half satisfies [conds_ok], for every selectable
-    operation, given evaluable conditions and schema encodings that agree (C04's rule theorem for
-    5.5.1 across [vld_of_syn] / [exe_of_syn] / [schemas_agree]). *)
+    PROVED: a text accepted by the composed front half satisfies [conds_gen _ _ _ false], for every
+    selectable operation and ALL variable values, given schema encodings that agree (C04's rule
+    theorem for 5.5.1 across [vld_of_syn] / [exe_of_syn] / [schemas_agree]); and [conds_ok] when
+    the conditions are evaluable. *)
 Theorem C03_validated_type_conditions_composite : forall pi VS F ES bs d opname o vv E,
+  Vld.ProofsCommon.order_ok pi -> schemas_agree VS ES = true ->
+  parse_and_validate_order pi VS F bs = FAccepted d ->
+  ExeA.ArgModel.get_operation (exe_of_syn d) opname = ExeA.ArgModel.GOp o ->
+  ExeA.ArgSpec.conds_gen ES (ExeA.ArgData.doc_of (exe_of_syn d) o vv) E false = true.
+Proof. exact accepted_conds_gen. Qed.
+Theorem C03_validated_conditions_ok_when_evaluable : forall pi VS F ES bs d opname o vv E,
   Vld.ProofsCommon.order_ok pi -> schemas_agree VS ES = true ->
   parse_and_validate_order pi VS F bs = FAccepted d ->
   ExeA.ArgModel.get_operation (exe_of_syn d) opname = ExeA.ArgModel.GOp o ->
@@ -221,7 +228,7 @@ Proof. exact accepted_acyclic. Qed.
         parse_and_validate_order pi VS F bs = FAccepted d ->
         get_operation (exe_of_syn d) opname = GOp o ->
         let D := doc_of (exe_of_syn d) o vv in  let E := env_of_vars vv in
-        dirs_evaluable D E = true -> s_root_type ES (op_kind D) = Some rt ->
+        s_root_type ES (op_kind D) = Some rt ->
         exists Q, Q rt (op_sels D) /\ fields_defined_on ES D E Q /\ merge_sound ES D E Q.
     [Q ot sels]: "[sels] is a validated selection list for an object of type [ot]".
     [fields_defined_on] — THE POSSIBLE-OBJECT-TYPE STEP: for [Q ot sels], CollectFields(ot, sels) is
@@ -234,8 +241,8 @@ Proof. exact accepted_acyclic. Qed.
       FIRST node's field type (the C04 builder's C04_accepted_merge_sound).
     Nothing else is open: acyclicity / levels / fuel (above, with C01_doc_ok_acyclic), type
     conditions (a), root type (c), argument coercion (g) are proved.  The premise is exactly as
-    strong as needed: [doc_ok] itself yields such a Q (C03_invariant_from_doc_ok).
-    The composed model evaluates [doc_ok] on every run instead (outcome [PContractBroken CDocOk],
+    strong as needed: [doc_ok_nodirs] itself yields such a Q (C03_invariant_from_doc_ok).
+    The composed model evaluates [doc_ok_nodirs] on every run instead (outcome [PContractBroken CDocOk],
     an oracle failure of the check).  With it, [validate_establishes_doc_ok] follows ... *)
 Theorem C03_validate_establishes_doc_ok_partial : forall pi VS F ES,
   Vld.ProofsCommon.order_ok pi -> schemas_agree VS ES = true -> cost_schema_accepted ES = true ->
@@ -244,17 +251,16 @@ Proof. exact doc_ok_from_invariant. Qed.
 
 Theorem C03_invariant_from_doc_ok : forall ES D E n rt,
   ExeA.ArgSpec.s_root_type ES (ExeA.ArgData.op_kind D) = Some rt ->
-  ExeA.ArgSpec.doc_ok ES D E (ExeA.ArgModel.default_fuel D) n = true ->
+  ExeA.ArgSpec.doc_ok_nodirs ES D E (ExeA.ArgModel.default_fuel D) n = true ->
   exists Q, Q rt (ExeA.ArgData.op_sels D) /\ fields_defined_on ES D E Q /\ merge_sound ES D E Q.
 Proof. exact invariant_from_doc_ok. Qed.
 
-(** ... and every request with evaluable conditions whose text keeps positions below line 2^24 /
+(** ... and every request whose text keeps positions below line 2^24 /
     column 2^32 ([text_positions_small]) gets a response: no broken contract is left *)
 Theorem C03_pipeline_response_partial : forall pi VS F ES bs opname raw W,
   Vld.ProofsCommon.order_ok pi ->
   schema_accepted ES = true -> cost_schema_accepted ES = true -> schemas_agree VS ES = true ->
   validate_establishes_invariant pi VS F ES -> text_positions_small bs ->
-  request_evaluable pi VS F ES bs opname raw ->
   is_response (pipeline_order pi VS F ES bs opname raw W) = true.
 Proof. exact pipeline_response_if_invariant. Qed.
 
@@ -289,7 +295,6 @@ Proof. exact parse_validate_cost_never_crashes. Qed.
 Theorem C03_subscribe_never_crashes : forall pi VS F ES bs opname raw W,
   Vld.ProofsCommon.order_ok pi ->
   schema_accepted ES = true -> cost_schema_accepted ES = true -> schemas_agree VS ES = true ->
-  request_evaluable pi VS F ES bs opname raw ->
   match subscribe_order pi VS F ES bs opname raw W with SubPanic _ | SubOutOfFuel _ => False | _ => True end.
 Proof. exact subscribe_never_crashes. Qed.
 
@@ -301,7 +306,9 @@ Proof. exact subscribe_never_crashes. Qed.
     future.go) finishes — it is never stuck and never out of fuel with one idle round per
     promise — with the same data, and its errors conform to the plan (exactly one admissible
     error for every visible failure-null).  C02_every_schedule_yields_ExecuteRequest_response
-    through the composition: its hypotheses are the dynamic checks of the composed model. *)
+    through the composition: its hypotheses are the dynamic checks of the composed model, plus
+    [dirs_evaluable] (every @skip/@include condition has a boolean value: C02's bridge theorem is
+    stated under C01's full [doc_ok]). *)
 Theorem C03_async_resolvers_same_data : forall pi VS F ES bs opname raw W d o vv data errs
     (code : ExeA.ArgData.json -> BinNums.Z) md root sigma fuelr jfuel,
   schema_accepted ES = true ->
@@ -311,6 +318,7 @@ Theorem C03_async_resolvers_same_data : forall pi VS F ES bs opname raw W d o vv
   pipeline_order pi VS F ES bs opname raw W = PExecuted data errs ->
   let D := ExeA.ArgData.doc_of (exe_of_syn d) o vv in
   let E := ExeA.ArgArgs.env_of_vars vv in
+  ExeA.ArgHyps.dirs_evaluable D E = true ->
   Fut.FutSpec.same_outcomes root (Fut.BridgeC01.plan_of code ES D E (ExeA.ArgModel.default_fuel D) W) ->
   Fut.AsyncRun.fair sigma -> (Fut.Plan.count_async root <= fuelr)%nat -> (Fut.FutProofs.resp_depth root < jfuel)%nat ->
   exists r, Fut.ExecAsync.run Fut.ExecAsync.fixed_flags sigma md fuelr jfuel root = Fut.ExecAsync.Done r /\
@@ -350,6 +358,7 @@ Print Assumptions C03_data_or_errors.
 Print Assumptions C03_parsed_positions_distinct.
 Print Assumptions C03_pipeline_order_independent.
 Print Assumptions C03_validated_type_conditions_composite.
+Print Assumptions C03_validated_conditions_ok_when_evaluable.
 Print Assumptions C03_composite_condition_never_unexpected.
 Print Assumptions C03_validated_root_type_exists.
 Print Assumptions C03_parsed_field_positions_distinct.
